@@ -142,6 +142,7 @@ template <class T> static void culling (const Frustum<T>& Fin, Gen<T>& g, int it
         bx.extendBy (x);
         Sphere3<T> sp (x + off, (k % 2) ? off.length () * T (1.0625) : ext);
         Rec r ("cull"); r.str ("t", t); r.num ("fam", fam); r.num ("how", how); r.num ("k", k); r.raw ("planes", jplanes (p)); r.raw ("x", jv (x));
+        if (k == 0) { r.raw ("cam", jv (M)); r.raw ("camm", jv (ft.cameraMat ())); putstate (r, "st", "o", F); putstate (r, "cst", "co", ft.currentFrustum ()); }
         r.num ("vp", ft.isVisible (x));
         r.raw ("bmin", jv (bx.min)); r.raw ("bmax", jv (bx.max)); r.num ("vb", ft.isVisible (bx)); r.num ("cb", ft.completelyContains (bx));
         r.raw ("sc", jv (sp.center)); r.raw ("sr", jw (sp.radius)); r.num ("vs", ft.isVisible (sp)); r.num ("cs", ft.completelyContains (sp));
